@@ -15,7 +15,7 @@ theorem pending_of_empty (st : State) (hq : st.queue = []) : pending st = view s
     simp only [pending, view, hq, findAct, List.find?_nil]
 
 theorem inv_init : Inv init := by
-  refine ⟨by simp [init], by simp [init], by simp [init], ?_, by simp [init]⟩
+  refine ⟨by simp [init], by simp [init], by simp [init], ?_, by simp [init], by simp [init, ConnUniq]⟩
   intro id o h
   simp [init, findObst] at h
 
@@ -99,5 +99,86 @@ theorem step_queue_immediate (st : State) (op : Op) (hq : st.queue = []) (hoff :
       · split
         · exact processTransaction_queue _
         · exact h2
+
+/-! ### a user re-target survives everything else the history does -/
+
+theorem legalRun_append (st : State) (l1 l2 : List Op) :
+    legalRun st (l1 ++ l2) = (legalRun st l1 && legalRun (run st l1) l2) := by
+  induction l1 generalizing st with
+  | nil => simp [legalRun, run]
+  | cons op l1 ih =>
+    simp only [List.cons_append, legalRun, ih, run, List.foldl_cons, Bool.and_assoc]
+
+theorem run_append (st : State) (l1 l2 : List Op) : run st (l1 ++ l2) = run (run st l1) l2 := by
+  unfold run; rw [List.foldl_append]
+
+theorem endOf_setEnds (ends : Option CEnd × Option CEnd) (e : End) (p : CEnd) : endOf (setEnds ends e p) e = some p := by
+  cases e <;> rfl
+
+/-- end `e` of connector `c`, as the queue promises it -/
+def promisedEnd (st : State) (c : Nat) (e : End) : Option (Option CEnd) :=
+  ((pending st).conn c).map fun x => endOf x e
+
+theorem retarget_set (st : State) (c : Nat) (e : End) (p : CEnd) (h : Inv st)
+    (hl : legal st (.setEndpoint c e p) = true) :
+    promisedEnd (step st (.setEndpoint c e p)) c e = some (some p) := by
+  have hs := (step_spec st _ h hl).2
+  have hc := legalCall_of_legal hl
+  simp only [legalCall, Bool.and_eq_true] at hc
+  obtain ⟨k, hk⟩ := Option.isSome_iff_exists.1 hc.1
+  unfold promisedEnd
+  rw [hs]
+  simp only [applyOp, upd, if_true]
+  have hsome : ((pending st).conn c).isSome = true := by simp [pending, hk]
+  obtain ⟨ends, hends⟩ := Option.isSome_iff_exists.1 hsome
+  rw [hends]
+  simp [endOf_setEnds]
+
+theorem retarget_kept_step (st : State) (op : Op) (c : Nat) (e : End) (p : CEnd) (h : Inv st)
+    (hl : legal st op = true) (hne : ∀ q, op ≠ .setEndpoint c e q)
+    (hP : promisedEnd st c e = some (some p)) : promisedEnd (step st op) c e = some (some p) := by
+  have hs := (step_spec st op h hl).2
+  unfold promisedEnd at hP ⊢
+  rw [hs]
+  cases op with
+  | addObst j id g => exact hP
+  | moveAbs j id g fm => exact hP
+  | moveRel j id dx dy => exact hP
+  | delete j id => exact hP
+  | newPin o cl xo yo => exact hP
+  | setTransactionUse b => exact hP
+  | processTransaction => exact hP
+  | newConn id =>
+    by_cases hi : c = id
+    · subst hi
+      exfalso
+      have hc := legalCall_of_legal hl
+      simp only [legalCall, Bool.and_eq_true, Bool.not_eq_true'] at hc
+      have hfc := (fresh_of_not_idUsed hc.2).2
+      simp [pending, hfc] at hP
+    · simpa [applyOp, upd, hi] using hP
+  | setEndpoint c' e' q =>
+    by_cases hi : c = c'
+    · subst hi
+      have hee : e' ≠ e := fun he => hne q (by rw [he])
+      simp only [applyOp, upd, if_true]
+      cases hcc : (pending st).conn c with
+      | none => simp [hcc] at hP
+      | some ends =>
+        simp only [hcc, Option.map_some, Option.some.injEq] at hP ⊢
+        rw [← hP]
+        cases e <;> cases e' <;> first | rfl | exact absurd rfl hee
+    · simpa [applyOp, upd, hi] using hP
+
+theorem retarget_kept_run (ops : List Op) (st : State) (c : Nat) (e : End) (p : CEnd) (h : Inv st)
+    (hl : legalRun st ops = true) (hne : ∀ op ∈ ops, ∀ q, op ≠ .setEndpoint c e q)
+    (hP : promisedEnd st c e = some (some p)) : promisedEnd (run st ops) c e = some (some p) := by
+  induction ops generalizing st with
+  | nil => exact hP
+  | cons op ops ih =>
+    simp only [legalRun, Bool.and_eq_true] at hl
+    simp only [run, List.foldl_cons]
+    exact ih (step st op) (step_spec st op h hl.1).1 hl.2 (fun o ho => hne o (List.mem_cons_of_mem _ ho))
+      (retarget_kept_step st op c e p h hl.1 (hne op (List.mem_cons_self ..)) hP)
 
 end AdaptaVerif.Lemmas.ActionQueue
